@@ -188,6 +188,9 @@ class Report:
         os.makedirs(os.path.join(ROOT, "evidence"), exist_ok=True)
         json.dump(ev, open(os.path.join(ROOT, "evidence", f"{self.pid}.json"), "w"), indent=1)
         if self.violations:
+            # every violation of this run, for triage (work/ is scratch space, not evidence)
+            os.makedirs(WORK, exist_ok=True)
+            write_ndjson(os.path.join(WORK, f"{self.pid}-violations.ndjson"), self.violations)
             seen = set()
             for v in self.violations[:20]:
                 p = write_replay(self.pid, v)
